@@ -70,4 +70,26 @@ TEXT["C17"] = {
             "is exactly the RFC 6962 vector or an error at the 65535 limits; model compared with the library on generated "
             "chains (real certificates incl. one above 65535 bytes), presence patterns, mutated and hand-built inputs.",
     "note": COMMON_NOTE + "x509.ParseCertificate is an oracle (per-input table from the standard library); premise raw(parse d) = d."}
+BUNDLE_NOTE = (COMMON_NOTE + "URLs are strings; url.Parse / URL.String() are a partial Gallina model (Model/UrlRef.v) validated against "
+               "net/url each run, cases outside its decided class are skipped and counted; x509.ParseCertificate (signatures "
+               "section authorities) is an oracle table; http.Header canonicalisation is modelled.")
+TEXT["C03"] = {
+    "text": "Theorems over the model of Bundle.WriteTo / bundle.Read: reading what was written returns the normalised bundle "
+            "(nothing lost, duplicated or re-attributed; variants in row-major order; bad coverage refused) and the "
+            "write/read cycle reaches a byte-identical fixpoint; model compared with the library on generated bundles "
+            "(both versions, 0..40 exchanges, URL shapes, CBOR-boundary body sizes, primary/manifest/signatures, variant "
+            "grids incl. incomplete/overlapping/multi-key) through write, read and a 3-step write/read cycle.",
+    "note": BUNDLE_NOTE}
+TEXT["C04"] = {
+    "text": "Theorems: every output of the writer model satisfies an independent well-formedness relation of the format "
+            "(magic, tiling section table with responses last, index entries delimiting exactly one response, canonical "
+            "CBOR, trailing length) and the returned count equals the bytes handed over, for destinations with and without "
+            "ReaderFrom; model compared byte-for-byte (and count) with WriteTo on both kinds of destination.",
+    "note": BUNDLE_NOTE}
+TEXT["C05"] = {
+    "text": "Theorems for ALL byte strings: the reader model never panics or diverges, every returned exchange is the "
+            "bytes found at in-bounds, non-wrapping locations inside the responses section, unknown sections are stepped "
+            "over; model compared with bundle.Read on hand-assembled bundles with every length/offset/count field replaced "
+            "by boundary values, sections reordered/duplicated/unknown/missing, truncation at every offset and bit flips.",
+    "note": BUNDLE_NOTE}
 NOT_YET = {}
